@@ -281,15 +281,31 @@ def action_and_edge_ranges(ctx):
     single = repo.find_class("SingleJobShopGraphEnv")
     init = ctx.norm.flat(single.methods["__init__"])
     env = {}
+    # module-level numeric constants (named sentinels such as ANY_MACHINE = -1)
+    for name, v in getattr(init.module, "assigns", {}).items():
+        if isinstance(v, ast.Constant) and isinstance(v.value, (int, float)) and not isinstance(v.value, bool):
+            env[name] = v
+        elif isinstance(v, ast.UnaryOp) and isinstance(v.op, ast.USub) and isinstance(v.operand, ast.Constant):
+            env[name] = v
     for n in own_nodes(init.node):
         if isinstance(n, ast.Assign) and isinstance(n.targets[0], ast.Name):
             env[n.targets[0].id] = n.value
+        elif isinstance(n, ast.AnnAssign) and isinstance(n.target, ast.Name) and n.value is not None:
+            env[n.target.id] = n.value
+        elif (
+            isinstance(n, ast.Assign) and isinstance(n.targets[0], ast.Tuple) and isinstance(n.value, ast.Tuple)
+            and len(n.targets[0].elts) == len(n.value.elts) and all(isinstance(t, ast.Name) for t in n.targets[0].elts)
+        ):
+            for t, v in zip(n.targets[0].elts, n.value.elts):
+                env[t.id] = v
     md = [
         c for c in _space_calls(init, "MultiDiscrete")
     ]
     act = None
     for n in own_nodes(init.node):
         if isinstance(n, ast.Assign) and any(isinstance(t, ast.Attribute) and t.attr == "action_space" for t in n.targets):
+            act = n.value
+        elif isinstance(n, ast.AnnAssign) and isinstance(n.target, ast.Attribute) and n.target.attr == "action_space" and n.value is not None:
             act = n.value
     if not (isinstance(act, ast.Call) and (dotted(act.func) or "").endswith("MultiDiscrete")):
         raise AnalysisError("SingleJobShopGraphEnv: action_space declaration not recognised")
@@ -337,6 +353,10 @@ def action_and_edge_ranges(ctx):
             )
     # edge index space
     gos = _obs_space_builder(ctx, single)
+    if not _space_calls(gos, "MultiDiscrete"):
+        # the declaration may sit in a private helper (possibly of a helper
+        # module) the builder delegates to
+        gos = ctx.norm.flat(gos, depth=3)
     env2 = {}
     for n in own_nodes(gos.node):
         if isinstance(n, ast.Assign) and isinstance(n.targets[0], ast.Name):
@@ -509,12 +529,20 @@ def _obs_space_builder(ctx, single):
     raise AnalysisError("SingleJobShopGraphEnv: no assignment of observation_space found")
 
 
-def _padder(ctx, multi):
+def _padder(ctx, multi, fallback=False):
     """The method of the multi environment that pads observations: the one
-    that calls add_padding."""
+    that calls add_padding.  ``fallback``: otherwise the method that rewrites
+    the entries of an observation dict in a loop over its items."""
     for m in multi.methods.values():
         if any(isinstance(n, ast.Call) and (dotted(n.func) or "").split(".")[-1] == "add_padding" for n in own_nodes(m.node)):
             return m
+    if fallback:
+        for m in multi.methods.values():
+            for lp in own_nodes(m.node):
+                if isinstance(lp, ast.For) and isinstance(lp.iter, ast.Call) and isinstance(lp.iter.func, ast.Attribute) and lp.iter.func.attr == "items":
+                    d = ast.unparse(lp.iter.func.value)
+                    if any(isinstance(st, ast.Assign) and isinstance(st.targets[0], ast.Subscript) and ast.unparse(st.targets[0].value) == d for st in ast.walk(lp)):
+                        return m
     raise AnalysisError("MultiJobShopGraphEnv: no method calls add_padding")
 
 
@@ -770,11 +798,32 @@ def freshness(ctx):
     else:
         chk.violation("R18.f", go, None, "get_observation does not rebuild the removed-nodes mask from the current graph")
     multi = repo.find_class("MultiJobShopGraphEnv")
-    f = _padder(ctx, multi)
+    f = _padder(ctx, multi, fallback=True)
     loops = [x for x in own_nodes(f.node) if isinstance(x, ast.For)]
     if len(loops) != 1:
         raise AnalysisError("_add_padding_to_observation: loop not recognised")
     lp = loops[0]
+    if not any(isinstance(n, ast.Call) and (dotted(n.func) or "").split(".")[-1] == "add_padding" for n in own_nodes(f.node)):
+        # padding re-implemented in place: where do the arrays written into the
+        # observation come from?
+        from ..dataflow import is_shared
+
+        d = ast.unparse(lp.iter.func.value) if isinstance(lp.iter, ast.Call) and isinstance(lp.iter.func, ast.Attribute) else None
+        stores = [st for st in ast.walk(lp) if isinstance(st, ast.Assign) and isinstance(st.targets[0], ast.Subscript) and ast.unparse(st.targets[0].value) == d]
+        if not stores:
+            raise AnalysisError("_add_padding_to_observation: no store into the observation found")
+        for st in stores:
+            shared = [o for o in ctx.flow.origins(f, st.value, multi) if is_shared(o) and o[0] in ("attr", "elem", "cached") and "self" in repr(o)]
+            if shared:
+                chk.violation(
+                    "R18.f", f, st,
+                    f"`{ast.unparse(st)[:80]}` puts an array into the observation that is kept in the environment "
+                    f"(origin {shared[0][:3]}): successive observations share one buffer, and cells a smaller "
+                    "observation does not overwrite keep the values of an earlier one instead of the declared fill value",
+                    loc=f.loc(st),
+                )
+                return
+        raise AnalysisError("MultiJobShopGraphEnv: no method calls add_padding")
     def _pad_assigns(stmts):
         out = []
         for st in stmts:
@@ -811,5 +860,5 @@ def run(ctx):
     feature_boxes(ctx)
     step_flags(ctx)
     key_agreement(ctx)
+    freshness(ctx)  # before padding(): a stale-buffer finding must not be hidden by an unrecognised fill-value idiom
     padding(ctx)
-    freshness(ctx)
